@@ -508,6 +508,38 @@ func g5Directed(r *rand.Rand, emit func(c g5Cfg, fam string)) {
 	}
 }
 
+// blocks whose size sits exactly on an internal threshold of the codec (constants re-read from /repo): a symmetric
+// change of such a threshold in encoder and decoder alters the format only for these sizes
+func g5Thresholds(r *rand.Rand, limit int, emit func(c g5Cfg, fam string)) {
+	k := 0
+	for _, tf := range g5Transforms {
+		if tf == "NONE" {
+			continue
+		}
+		for _, size := range thresholdSizes(tf, limit) {
+			bs := uint((max(size, 1024) + 15) &^ 15)
+			emit(g5Cfg{Tf: tf, En: "NONE", Bs: bs, Ck: []uint{0, 32, 64}[k%3], Hl: false, Fs: k%2 == 0, Shape: g5FriendlyShape(tf),
+				Size: size, DS: r.Int63n(1 << 40)}, "thresholds")
+			k++
+		}
+	}
+	for _, en := range g5Entropies {
+		if en == "NONE" {
+			continue
+		}
+		lim := limit
+		if g5HeavyEntropy(en) {
+			lim = min(limit, 70000)
+		}
+		for _, size := range thresholdSizes(en, lim) {
+			bs := uint((max(size, 1024) + 15) &^ 15)
+			emit(g5Cfg{Tf: "NONE", En: en, Bs: bs, Ck: []uint{0, 32, 64}[k%3], Hl: false, Fs: k%2 == 0, Shape: "text",
+				Size: size, DS: r.Int63n(1 << 40)}, "thresholds")
+			k++
+		}
+	}
+}
+
 var g5EdgeSizes = []int{0, 1, 2, 15, 16, 17, 100, 1023, 1024, 1025, 4095, 4096, 4097, 8192}
 
 func g5Shapes(r *rand.Rand, emit func(c g5Cfg, fam string)) {
@@ -576,7 +608,7 @@ func init() {
 	registerStream(&Stream{
 		Name:     "golden",
 		Parallel: 8,
-		Rule: "ref ops: (transform chain, entropy, block size, checksum, headerless, size hint, data shape/size/seed): all 19x9 single-transform pairs, the ten CLI levels x checksum {0,32,64} x {headered, headerless}, 19 data shapes x levels 0-7 at edge sizes, then random chains of 1-4 transforms; gold ops: every stream of golden/index.json. " +
+		Rule: "ref ops: (transform chain, entropy, block size, checksum, headerless, size hint, data shape/size/seed): all 19x9 single-transform pairs, the ten CLI levels x checksum {0,32,64} x {headered, headerless}, 19 data shapes x levels 0-7 at edge sizes, every single transform / entropy codec at the block sizes v-1,v,v+1 around each named integer constant v of its source (re-read from /repo), then random chains of 1-4 transforms; gold ops: every stream of golden/index.json. " +
 			"distinct_nontrivial = distinct scenarios in which the reference encoder+decoder round-trip (so the current decoder is actually compared) plus golden streams decoded",
 		Gen: func(r *rand.Rand, tier string, n int, emit func(op string, tags ...string)) {
 			emit("goldindex", "family:golden-index")
@@ -588,6 +620,11 @@ func init() {
 			e := func(c g5Cfg, fam string) { emit(c.op(), "family:"+fam) }
 			g5Directed(r, e)
 			g5Shapes(r, e)
+			if tier == "thorough" {
+				g5Thresholds(r, 1<<23, e)
+			} else {
+				g5Thresholds(r, 1<<17, e)
+			}
 			maxSize := 100000
 			if n == 0 {
 				n = 250
